@@ -1,5 +1,7 @@
 package main
 
+import "go/token"
+
 // Intrinsics added for C16 (nsqd <-> nsqlookupd): both are harness-runtime helpers, no
 // environment contract is modelled here.
 
@@ -21,4 +23,55 @@ func init() {
 	// verifrt.NativeClock: native replay only.
 	intrinsics[rtPkg+"NativeClock"] = func(in *Interp, fr *frame, args []value) value { return nil }
 	intrinsics[rtPkg+"NativeClockUsed"] = func(in *Interp, fr *frame, args []value) value { return in.tt.Const(64, 0) }
+	// verifrt.Rest(): deterministic quiescence. The calling thread repeatedly hands the baton to
+	// the lowest-numbered runnable thread and hides every other thread from the scheduler while
+	// it runs (their wait predicates are masked), so sched.go's reschedule never sees more than
+	// one candidate and makes no decision. One canonical run-to-block schedule; harnesses that
+	// use it do not claim anything about other interleavings.
+	intrinsics[rtPkg+"Rest"] = func(in *Interp, fr *frame, args []value) value {
+		self := in.cur
+		in.h.Bounds["canonical-schedule(Rest)"] = 1
+		for round := 0; round < 100000; round++ {
+			var next *thread
+			for _, t := range in.threads {
+				if t == self || t.done || t.joiner {
+					continue
+				}
+				if t.enabled() {
+					next = t
+					break
+				}
+			}
+			if next == nil {
+				return nil
+			}
+			type saved struct {
+				t *thread
+				b func() bool
+			}
+			var masked []saved
+			for _, t := range in.threads {
+				if t == self || t == next || t.done {
+					continue
+				}
+				masked = append(masked, saved{t, t.blocked})
+				t.blocked = func() bool { return false }
+			}
+			self.joiner = true
+			self.blocked = func() bool { return true }
+			self.desc = "Rest"
+			func() {
+				defer func() {
+					self.blocked = nil
+					self.joiner = false
+					for _, m := range masked {
+						m.t.blocked = m.b
+					}
+				}()
+				in.reschedule(self, "rest", token.NoPos)
+			}()
+		}
+		in.unsupported("Rest: no quiescence after 100000 rounds")
+		return nil
+	}
 }
